@@ -3,6 +3,8 @@ package harness
 import (
 	"fmt"
 	"math/big"
+	"os"
+	"strings"
 	"testing"
 
 	packettypes "github.com/teleport-network/teleport/x/xibc/core/packet/types"
@@ -57,7 +59,11 @@ func (w *World) pktInfo(k string, call string, fee int64) []interface{} {
 			kind = "back"
 		}
 	}
-	return []interface{}{w.absName(p.SrcChain), w.absName(p.DstChain), p.Sequence, kind, amt, call, fee}
+	cb := "none"
+	if p.CallbackAddress != "" && !strings.EqualFold(p.CallbackAddress, zeroAddr.String()) {
+		cb = "bad" // the only callback contract these behaviours use has no callback function
+	}
+	return []interface{}{w.absName(p.SrcChain), w.absName(p.DstChain), p.Sequence, kind, amt, call, fee, cb}
 }
 
 func driveXIBC(t *testing.T, in, out string, seed int64) {
@@ -66,6 +72,9 @@ func driveXIBC(t *testing.T, in, out string, seed int64) {
 	defer tw.Close()
 	for bi, b := range behaviours {
 		names := []string{"A", "B"}
+		if os.Getenv("VERIF_XIBC_CHAINS") == "3" {
+			names = []string{"A", "B", "C"}
+		}
 		for _, st := range b {
 			for _, f := range []string{"chain", "dst", "counter", "src"} {
 				if str(st[f]) == "C" {
@@ -83,7 +92,7 @@ func driveXIBC(t *testing.T, in, out string, seed int64) {
 			pre, vpre := w.FullDigest(on), w.ValueDigest(on)
 			switch act {
 			case "Send":
-				spec := SendSpec{Src: on, Dst: str(st["dst"]), Kind: str(st["kind"]), Amt: num(st["amt"]), Call: str(st["call"]), Fee: num(st["fee"]), Via: str(st["via"])}
+				spec := SendSpec{Src: on, Dst: str(st["dst"]), Kind: str(st["kind"]), Amt: num(st["amt"]), Call: str(st["call"]), Fee: num(st["fee"]), Via: str(st["via"]), Callback: str(st["cb"]) == "bad"}
 				nextSeq := w.Chains[on].App.XIBCKeeper.PacketKeeper.GetNextSequenceSend(w.Chains[on].Ctx(), w.ID[on], w.ID[spec.Dst])
 				r := w.Send(spec)
 				line["res"], line["msg"] = resOf(r), clip(r.Log+r.VMError)
@@ -94,6 +103,22 @@ func driveXIBC(t *testing.T, in, out string, seed int64) {
 						line["pkt"] = info
 					}
 				}
+			case "SendTwo":
+				dst, dst2, call := str(st["dst"]), str(st["dst2"]), str(st["call"])
+				pk0 := w.Chains[on].App.XIBCKeeper.PacketKeeper
+				next1, next2 := pk0.GetNextSequenceSend(w.Chains[on].Ctx(), w.ID[on], w.ID[dst]), pk0.GetNextSequenceSend(w.Chains[on].Ctx(), w.ID[on], w.ID[dst2])
+				r := w.SendTwo(on, dst, dst2, call)
+				line["res"], line["msg"] = resOf(r), clip(r.VMError+" "+r.Log)
+				line["sig"] = "SendTwo/" + call
+				pk := []interface{}{}
+				if r.OK() {
+					for _, k := range []string{fmt.Sprintf("%s/%s/%d", on, dst, next1), fmt.Sprintf("%s/%s/%d", on, dst2, next2)} {
+						if info := w.pktInfo(k, call, 0); info != nil {
+							pk = append(pk, info)
+						}
+					}
+				}
+				line["pkts"] = pk
 			case "Commit":
 				w.Commit(on)
 				line["res"], line["sig"] = "ok", "Commit"
